@@ -1435,6 +1435,10 @@ M('C11', 'MPO.overlap merges the two one-sided explicit_plus_hc cases (round-5 s
   "            ov = A_B + np.conj(hcA_B)", "            ov = A_B + hcA_B",
   'HCFLAG-overlap-table')
 
+M('C12', 'exp. decaying coupling attaches the JW factor to the right operator (round-5 seed a)', 'tenpy/models/model.py',
+  "                op_i = example_site_i.multiply_op_names([op_i, 'JW'])", "                op_j = example_site_j.multiply_op_names(['JW', op_j])",
+  'JW-left-operator')
+
 # ---------------------------------------------------------------- C16 / C19
 M('C16', 'GMRES restart: relative residual norm used for normalisation (round-3 seed b)', KRY,
   """        self.total_error.append([npc.norm(self.rs[-1]) / self.b_norm])
